@@ -27,6 +27,14 @@ def _setup_operative():
   gin.parse_config(['vw.dflt.a = 1', 'a/vw.dflt.b = 2', 'b/vw.dflt.b = 3', 'vw.cons.p = [1, 2]'])
 
 
+def _setup_operative_partial():
+  """As above, but the record of ('a', dflt) already exists with only one of its
+  parameters (the first call supplied the other one itself)."""
+  _setup_operative()
+  with gin.config_scope('a'):
+    world.dflt(7)
+
+
 def _call_in(scope):
   def prog():
     with gin.config_scope(scope):
@@ -100,6 +108,8 @@ def scenarios(tier):
        [_call_in('a'), _call_in('a'), world.cons, _reader][:4 if tier == 'thorough' else 3] + (
            [] if tier == 'thorough' else []),
        _setup_operative, _check_no_exception, 'standard'),
+      ('operative: existing record gains a parameter | reader', [_call_in('a'), _reader],
+       _setup_operative_partial, _check_no_exception, 'standard'),
       ('singleton: k,j | k,j', [_use_both, _use_both], _setup_singleton, _check_singleton, 'singleton'),
       ('singleton: k | k,j | k', [_use_k, _use_both, _use_k][:3 if tier == 'thorough' else 2],
        _setup_singleton, _check_singleton, 'singleton'),
